@@ -21,7 +21,7 @@ RULE = ('(a) dyadic float32 fields (all float32 operations of pack2d/unpack exac
         'grids 20-24 x 17-19; laid out per the format description by a reference encoder that packs every field with the LEAN '
         'model of pack2d (not the library); read by arlpackedbit: variable list, level list, times, and every field equal to '
         'what the bytes decode to (Lean unpack) and within one quantisation step of the encoded values; file size vs the Lean '
-        'layout arithmetic; input handed to pack2d as float32, as float64 that rounds to that float32 field, or as int8/16/32; in half of the file cases another packed file is opened before the first is read')
+        'layout arithmetic; input handed to pack2d as float32, as float64 that rounds to that float32 field, or as int8/16/32; in half of the file cases another packed file is opened before the first is read; every packed result is held while another field of the same shape is packed; (c) the level / variable table of the index record written by writevardef and read by readvardef (sigma, hPa and height levels up to 99999, 1-5 levels, any variable lists and checksums); files whose levels list the same variables in different orders')
 TRUSTED_EXTRA = ['the scaling exponent must equal the exact rule floor(log2 RMAX) + 1 of the model for every input (the repaired '
                  'code takes it from the binary exponent; the former float32 logarithm was wrong at some exact powers of two)',
                  'arithmetic of pack2d/unpack is compared on dyadic inputs where float32 is exact; the '
@@ -111,6 +111,7 @@ def gen(rng, tier):
                 del case['indtype']
         out.append(case)
     out += _file_cases(rng, 6 if tier == 'quick' else 100)
+    out += _vardef_cases(rng, 40 if tier == 'quick' else 1500)
     return out
 
 
@@ -122,6 +123,60 @@ def _file_cases(rng, n):
         # half of the time another packed file (its own levels and variables) is opened before the first one is read
         out.append(dict(kind='file', spec=c, rows=[[0, 1]], other=arlfmt.gen(rng) if rng.random() < 0.5 else None))
     return out
+
+
+VKEYS = ['PRSS', 'T02M', 'U10M', 'V10M', 'TEMP', 'UWND', 'VWND', 'SPHU', 'HGTS', 'WWND']
+
+
+def _vardef_cases(rng, n):
+    """the level / variable table of the index record: writevardef then readvardef.  Levels are numbers the six-character
+    field holds exactly: sigma (multiples of 1/32), pressures (whole or half hPa), heights up to 99999 m"""
+    out = []
+    for _ in range(n):
+        style = rng.choice(['sigma', 'hpa', 'm', 'm_high'])
+        nl = rng.randint(1, 5)
+        if style == 'sigma':
+            lv = sorted(rng.sample([Fraction(k, 32) for k in range(1, 32)], nl), reverse=True)
+        elif style == 'hpa':
+            lv = sorted(rng.sample([Fraction(k, 2) for k in range(20, 2001)], nl), reverse=True)
+        elif style == 'm':
+            lv = sorted(rng.sample(range(10, 10000), nl))
+        else:
+            lv = sorted(rng.sample(range(9000, 100000), nl))
+        sfc = rng.choice([Fraction(0), Fraction(1), Fraction(1013), Fraction(2)]) if rng.random() < 0.8 else Fraction(0)
+        levels = [sfc] + [Fraction(x) for x in lv if Fraction(x) != sfc]
+        keys = [rng.sample(VKEYS[:4], rng.randint(1, 3))] + [rng.sample(VKEYS[4:], rng.randint(1, 4)) for _ in levels[1:]]
+        sums = [[rng.randint(0, 254) for _ in k] for k in keys]
+        out.append(dict(kind='vardef', rows=[[0, 1]], levels=[lib.show_rat(x) for x in levels], keys=keys, sums=sums))
+    return out
+
+
+def _impl_vardef(case):
+    from PseudoNetCDF.noaafiles._arl import writevardef, readvardef
+    lv = [float(Fraction(x)) for x in case['levels']]
+    keys = {l: [k.encode() for k in ks] for l, ks in zip(lv, case['keys'])}
+    sums = {(l, k.encode()): c for l, ks, cs in zip(lv, case['keys'], case['sums']) for k, c in zip(ks, cs)}
+    try:
+        txt = writevardef(lv, keys, sums)
+        out = readvardef(np.bytes_(txt.encode()), {})
+    except Exception as e:
+        return dict(err=type(e).__name__, msg=str(e)[:100])
+    return dict(text=txt.rstrip(), levels=[lib.show_rat(Fraction(float(x))) for x in out['vglvls']],
+                keys=[[k.decode().strip() for k in out['keys'][l]] for l in out['vglvls']],
+                sums=[[int(out['checksums'][l, k]) for k in out['keys'][l]] for l in out['vglvls']])
+
+
+def _oracle_vardef(case, res):
+    if 'err' in res:
+        return 'writevardef / readvardef raised %s %s' % (res['err'], res.get('msg'))
+    want = 8 * len(case['levels']) + 8 * sum(len(k) for k in case['keys'])
+    if len(res['text']) > want or len(res['text']) < want - 1:
+        return 'the level table has %d characters, 8 per level and 8 per variable make %d' % (len(res['text']), want)
+    if res['levels'] != case['levels']:
+        return 'level list %s written and read back as %s' % (case['levels'], res['levels'])
+    if res['keys'] != case['keys'] or res['sums'] != case['sums']:
+        return 'variable lists / checksums %s %s read back as %s %s' % (case['keys'], case['sums'], res['keys'], res['sums'])
+    return None
 
 
 def search(rng, budget):
@@ -200,6 +255,8 @@ def _oracle_file(case, res):
 def impl(case):
     if case.get('kind') == 'file':
         return _impl_file(case)
+    if case.get('kind') == 'vardef':
+        return _impl_vardef(case)
     from PseudoNetCDF.noaafiles._arl import pack2d, unpack
     rows = _rows(case)
     x = np.array([[float(v) for v in r] for r in rows], dtype='f')
@@ -214,6 +271,8 @@ def impl(case):
         xin = x
     try:
         c, prec, nexp, var1, ksum = pack2d(xin)
+        # the result is held while another field of the same shape is packed (all levels of a variable packed into a list)
+        held = pack2d(np.ascontiguousarray(xin[::-1, ::-1]) if case.get('klass') != 'constant' else xin + xin.dtype.type(1))
         b = c.view('uint8')
         u = unpack(c[None], np.array([var1]), np.array([nexp]))[0]
     except Exception as e:
@@ -223,6 +282,8 @@ def impl(case):
 
 
 def to_line(case, res):
+    if case.get('kind') == 'vardef':
+        return 'c20 layout 1 1 1'
     if case.get('kind') == 'file':
         c = case['spec']
         nrec = sum(len(c['sfc']) if li == 0 else len(c['lay']) for li in range(len(c['levels'])))
@@ -232,6 +293,8 @@ def to_line(case, res):
 
 
 def agree(case, out, res):
+    if case.get('kind') == 'vardef':
+        return None         # text formats of the index record are outside the Lean model (see ASSUMPTIONS): oracle only
     if case.get('kind') == 'file':
         if 'err' in res:
             return None
@@ -262,6 +325,8 @@ def oracle(case, res):
     """the property itself on the real code's output"""
     if case.get('kind') == 'file':
         return _oracle_file(case, res)
+    if case.get('kind') == 'vardef':
+        return _oracle_vardef(case, res)
     if 'err' in res:
         return 'pack2d/unpack raised %s' % res['err']
     rows = _rows(case)
@@ -279,7 +344,7 @@ def oracle(case, res):
 
 
 def classify(case, failure, model_out):
-    if case.get('kind') == 'file':
+    if case.get('kind') in ('file', 'vardef'):
         return None
     st, kv = lib.parse_kv(model_out)
     # the recorded finding is the truncation of a negative code under the EXACT exponent rule; a wrong exponent is another defect
@@ -297,6 +362,8 @@ def classify_full(case, failure, model_out, res, diff):
 
 
 def nontrivial(case, res):
+    if case.get('kind') == 'vardef':
+        return 'err' not in res and len(case['levels']) >= 3
     if case.get('kind') == 'file':
         return 'err' not in res and len(case['spec']['offs']) >= 2
     flat = [x for r in case['rows'] for x in r]
@@ -311,7 +378,7 @@ def witnesses():
 def distribution(recs):
     d = {}
     for r in recs:
-        k = r['case'].get('klass', 'file')
+        k = r['case'].get('klass', r['case'].get('kind', 'file'))
         d[k] = d.get(k, 0) + 1
     d['negtrunc_cases'] = sum(1 for r in recs if 'negtrunc=1' in r['model'])
     d['nexp_min'] = min((r['impl'].get('nexp', 0) for r in recs), default=0)
